@@ -6,6 +6,7 @@ import (
 	"fmt"
 	"os"
 	"runtime/debug"
+	"runtime/metrics"
 	"strings"
 	"sync"
 	"time"
@@ -249,50 +250,84 @@ func safeNext(it gojq.Iter) (v any, ok bool, pan string) {
 
 // ---------------------------------------------------------------------------
 // The watchdog: the only wall-clock element.  Every single run below executes
-// a bounded number of interpreter steps (microseconds to milliseconds); if
-// one of them has not come back after `watchdog`, the loop is not reaching a
-// cancellation check.  That is reported as a violation and the process ends
-// (the stuck goroutine cannot be stopped).
+// a bounded number of interpreter steps (at most a few ten thousand polls,
+// microseconds to milliseconds, a few megabytes); a monitor goroutine looks
+// every 100 ms at the run in flight.  If the same run is still in flight
+// after `watchdog`, or has grown the heap by more than `heapSlack` (a loop
+// that never polls while it piles up forks or scopes), the loop is not
+// reaching a cancellation check: that is reported as a violation and the
+// process ends (the stuck goroutine cannot be stopped).
 
-const watchdog = 60 * time.Second
+const (
+	watchdog  = 60 * time.Second
+	heapSlack = 1500 << 20
+)
 
 var wd struct {
-	mu    sync.Mutex
-	timer *time.Timer
-	sub   string
-	c     any
-	what  string
+	mu      sync.Mutex
+	started bool
+	seq     uint64
+	sub     string
+	c       any
+	what    string
 }
 
-func wdFire() {
-	wd.mu.Lock()
-	sub, c, what := wd.sub, wd.c, wd.what
-	wd.mu.Unlock()
-	if sub == "" {
-		return
+func heapBytes() uint64 {
+	s := []metrics.Sample{{Name: "/memory/classes/heap/objects:bytes"}}
+	metrics.Read(s)
+	if s[0].Value.Kind() == metrics.KindUint64 {
+		return s[0].Value.Uint64()
 	}
-	rec.Direct(sub, c, "promptness: %s has not returned %v after it started, although the context is cancelled after a bounded number of polls and every instruction of this program takes microseconds: the loop does not reach a cancellation check", what, watchdog)
-	rec.Close()
-	os.Exit(1)
+	return 0
 }
 
-// arm starts the watchdog for one bounded run.
+func wdMonitor() {
+	var seen uint64
+	var since time.Time
+	var heap0 uint64
+	for range time.Tick(100 * time.Millisecond) {
+		wd.mu.Lock()
+		seq, sub, c, what := wd.seq, wd.sub, wd.c, wd.what
+		wd.mu.Unlock()
+		if sub == "" || seq != seen {
+			seen, since, heap0 = seq, time.Now(), 0
+			continue
+		}
+		// the same bounded run has been in flight for at least 100 ms
+		h := heapBytes()
+		if heap0 == 0 {
+			heap0 = h
+		}
+		var why string
+		switch {
+		case time.Since(since) > watchdog:
+			why = fmt.Sprintf("has not returned %v after it started", watchdog)
+		case h > heap0+heapSlack:
+			why = fmt.Sprintf("has not returned after %v and has grown the heap by %d MiB", time.Since(since).Round(time.Millisecond), (h-heap0)>>20)
+		default:
+			continue
+		}
+		rec.Direct(sub, c, "promptness: %s %s, although the context is cancelled after a bounded number of polls of Done() and every instruction of this program takes microseconds: the loop does not reach a cancellation check", what, why)
+		rec.Close()
+		os.Exit(1)
+	}
+}
+
+// arm declares one bounded run in flight.
 func arm(sub string, c any, what string) {
 	wd.mu.Lock()
+	wd.seq++
 	wd.sub, wd.c, wd.what = sub, c, what
-	if wd.timer == nil {
-		wd.timer = time.AfterFunc(watchdog, wdFire)
-	} else {
-		wd.timer.Reset(watchdog)
+	if !wd.started {
+		wd.started = true
+		go wdMonitor()
 	}
 	wd.mu.Unlock()
 }
 
 func disarm() {
 	wd.mu.Lock()
+	wd.seq++
 	wd.sub = ""
-	if wd.timer != nil {
-		wd.timer.Stop()
-	}
 	wd.mu.Unlock()
 }
